@@ -33,7 +33,7 @@ func (f *frame) loopFrameAssume(li *loopInfo, keys []string, cur *State, reach T
 			var cover []Term
 			for _, m := range f.entryMods {
 				if m.key == k {
-					cover = append(cover, Eq(ot, m.obj))
+					cover = append(cover, And(m.condOrTrue(), Eq(ot, m.obj)))
 				}
 			}
 			body := Implies(And(pre, Not(Or(cover...))), Eq(Select(h1, ot), Select(h0, ot)))
@@ -48,9 +48,9 @@ func (f *frame) loopFrameAssume(li *loopInfo, keys []string, cur *State, reach T
 				continue
 			}
 			if m.whole {
-				cover = append(cover, Eq(ot, m.obj))
+				cover = append(cover, And(m.condOrTrue(), Eq(ot, m.obj)))
 			} else {
-				cover = append(cover, And(Eq(ot, m.obj), Le(m.lo, jt), Lt(jt, m.hi)))
+				cover = append(cover, And(m.condOrTrue(), Eq(ot, m.obj), Le(m.lo, jt), Lt(jt, m.hi)))
 			}
 		}
 		body := Implies(And(pre, Not(Or(cover...))), Eq(Select(Select(h1, ot), jt), Select(Select(h0, ot), jt)))
